@@ -159,8 +159,7 @@ def _block(w: _W, b: T.Dict[str, T.Any]) -> None:
             L(f"{p}_lib = static_library('{p}_lib', '{p}_util.c', {p}_ct)")
             L(f"{p}_exe = executable('{p}_exe', '{p}_main.c', {p}_ct[1], link_with: {p}_lib)")
         elif v == 4:    # a precompiled header includes the generated header
-            w.file(d, f'pch/{p}_pch.h', f'#include "../{p}_x.h"\n#include <stddef.h>\n')
-            F(f'{p}_x.h', f'/* plain header next to the pch */\n#define {P}_X 1\n')
+            w.file(d, f'pch/{p}_pch.h', f'#include "{p}_hdr.h"\n#include <stddef.h>\n')
             F(f'{p}_pch_user.c', _fn_c(f'{p}_pch_user', [f'{p}_hdr.h'], expr=f'{P}_HDR_VALUE - 1'))
             L(f"{p}_exe = executable('{p}_exe', '{p}_main.c', '{p}_util.c', '{p}_pch_user.c', {p}_ct, c_pch: 'pch/{p}_pch.h')")
         else:           # header and source from two custom targets, the second reads the first (target in command)
